@@ -4,7 +4,7 @@
    serde_json's f64 printer/parser round trip on finite values (`float_rt`). *)
 From Coq Require Import String Ascii.
 From Coq Require Import List ZArith Lia.
-Require Import Base JsonEscape Stats StatsProofs C19Record C19RecordProofs Lexer LexerProofs C19LexerFinite.
+Require Import Base JsonEscape Stats StatsProofs C19Record C19RecordProofs Lexer LexerProofs C19LexerFinite Condense C19DocNumbers.
 Import ListNotations.
 
 Definition lexval := (bool * N * Z)%type.                              (* (-1)^neg * mant * 10^exp10 *)
@@ -64,4 +64,69 @@ Proof.
   - exists [49; 101; 51; 48; 56]%N. eexists. split; [vm_compute; reflexivity|]. intros v Hv. exact Hv.
   - repeat constructor.
   - vm_compute. discriminate.
+Qed.
+
+(* ================= phase 4: records made from the DOCUMENT (what the linters, hence RecordKind::from_lint, see) ================= *)
+(* r was made from Document::new_plain_english(s): every Number value in its context is the value of a Number token of
+   the document — lexer AND the passes of Document::parse (C02's Model/Condense.v).  No source-shape flag is involved any
+   more: that the passes build no Number value is C19DocNumbers.document_number_values. *)
+Definition made_from_document (u : uni) (r : record lexval) : Prop :=
+  exists s ts, document_plain u s = Ok ts /\ incl (numbers lexval r) (map value_of (flat_map token_numbers ts)).
+
+Lemma in_token_numbers ts nb : In nb (flat_map token_numbers ts) <-> exists t, In t ts /\ tkind_of t = KNumber nb.
+Proof.
+  rewrite in_flat_map. split; intros [t [Hin H]]; exists t; (split; [exact Hin|]); unfold token_numbers in *.
+  - destruct (tkind_of t); try contradiction. destruct H as [->|[]]. reflexivity.
+  - rewrite H. left. reflexivity.
+Qed.
+
+Theorem made_from_document_text u r : made_from_document u r -> made_from_text u r.
+Proof.
+  intros [s [ts [E I]]]. destruct (plain_tiling u s) as [t0 [E0 _]]. exists s, t0. split; [exact E0|].
+  intros v Hv. apply I in Hv. apply in_map_iff in Hv. destruct Hv as [nb [<- Hin]].
+  apply in_token_numbers in Hin. destruct Hin as [t [Hin Ek]].
+  destruct (document_number_values u s t0 ts E0 E t nb Hin Ek) as [t' [nb0 [Hin' [Ek' [S1 [S2 [S3 _]]]]]]].
+  apply in_map_iff. exists nb0. split; [unfold value_of; congruence|].
+  apply in_token_numbers. exists t'. split; assumption.
+Qed.
+
+Theorem from_document_numbers_finite u r : made_from_document u r -> Forall lexval_finite (numbers lexval r).
+Proof. intros H. apply (from_text_numbers_finite u), made_from_document_text, H. Qed.
+
+Section DocRecordsConcrete.
+  Variable u : uni.
+  Variable print_f64 : lexval -> bytes.
+  Variable parse_f64 : bytes -> option lexval.
+  Hypothesis Hf : float_rt lexval lexval_finite print_f64 parse_f64.
+  Notation ser := (ser_record lexval lexval_finite print_f64 parse_f64).
+  Notation de := (de_record lexval lexval_finite print_f64 parse_f64).
+  Definition doc_record (r : record lexval) : Prop := rust_value lexval print_f64 parse_f64 r /\ made_from_document u r.
+
+  Lemma doc_record_text r : doc_record r -> text_record u print_f64 parse_f64 r.
+  Proof. intros [H1 H2]. split; [exact H1|apply made_from_document_text, H2]. Qed.
+
+  Theorem doc_log_roundtrip rs : Forall doc_record rs -> read (record lexval) de (write (record lexval) ser rs) = Some rs.
+  Proof. intros H. apply (text_log_roundtrip u _ _ Hf). eapply Forall_impl; [|exact H]. exact doc_record_text. Qed.
+  Theorem doc_log_append a c : Forall doc_record a -> Forall doc_record c ->
+    read (record lexval) de (write (record lexval) ser a ++ write (record lexval) ser c) = Some (a ++ c).
+  Proof.
+    intros Ha Hc. apply (text_log_append u _ _ Hf); (eapply Forall_impl; [|eassumption]); exact doc_record_text.
+  Qed.
+  Theorem doc_log_sessions file old ss : terminated file -> read (record lexval) de file = Some old ->
+    Forall (Forall doc_record) ss ->
+    read (record lexval) de (sessions (record lexval) ser file ss) = Some (old ++ concat ss).
+  Proof.
+    intros Ht Ho H. apply (text_log_sessions u _ _ Hf); [exact Ht|exact Ho|].
+    eapply Forall_impl; [|exact H]. intros l Hl. eapply Forall_impl; [|exact Hl]. exact doc_record_text.
+  Qed.
+End DocRecordsConcrete.
+
+(* non-vacuity: the lint record for the document of `2nd` — ONE Number token (2, suffix Nd) made by the suffix pass
+   out of the lexer's Number 2 and the Word `nd` *)
+Definition ex_doc_record : record lexval :=
+  (RKLint lexval 1%nat [([50; 110; 100]%N, TKNumber lexval ((false, 2%N, 0%Z), (Some 2%nat, (10%N, 0%N))))],
+   (7%Z, jb "00000000-0000-0000-0000-000000000003")).
+Example made_from_document_example : made_from_document ascii_uni ex_doc_record.
+Proof.
+  exists [50; 110; 100]%N. eexists. split; [vm_compute; reflexivity|]. intros v Hv. exact Hv.
 Qed.
